@@ -70,9 +70,9 @@ func checkC20(c *Check) {
 	// AddPeer
 	if fn := p.Fn("Server.AddPeer"); fn != nil {
 		type want struct {
-			name   string
-			hook   func(e *Expr) (ISet, bool)
-			chk    func(st *State, res *Expr) string
+			name string
+			hook func(e *Expr) (ISet, bool)
+			chk  func(st *State, res *Expr) string
 		}
 		noEffects := func(st *State) string {
 			for _, ev := range []string{"call:newPeer", "mapupdate", "call:peer.start", "call:sync.Mutex.Lock"} {
@@ -224,11 +224,19 @@ func checkC20(c *Check) {
 	}
 	// accept sets of the validators
 	if fn := p.Fn("PeerConfig.validate"); fn != nil && len(fn.Params) == 2 {
-		remoteValid := func(e *Expr) bool { return isCallNamed(e, "netip.Addr.IsValid") && strings.Contains(e.Key, "RemoteAddress") }
-		localValid := func(e *Expr) bool { return isCallNamed(e, "netip.Addr.IsValid") && strings.Contains(e.Key, "localAddress") }
-		remote4 := func(e *Expr) bool { return isCallNamed(e, "netip.Addr.Is4") && strings.Contains(e.Key, "RemoteAddress") }
+		remoteValid := func(e *Expr) bool {
+			return isCallNamed(e, "netip.Addr.IsValid") && strings.Contains(e.Key, "RemoteAddress")
+		}
+		localValid := func(e *Expr) bool {
+			return isCallNamed(e, "netip.Addr.IsValid") && strings.Contains(e.Key, "localAddress")
+		}
+		remote4 := func(e *Expr) bool {
+			return isCallNamed(e, "netip.Addr.Is4") && strings.Contains(e.Key, "RemoteAddress")
+		}
 		local4 := func(e *Expr) bool { return isCallNamed(e, "netip.Addr.Is4") && strings.Contains(e.Key, "localAddress") }
-		remote6 := func(e *Expr) bool { return isCallNamed(e, "netip.Addr.Is6") && strings.Contains(e.Key, "RemoteAddress") }
+		remote6 := func(e *Expr) bool {
+			return isCallNamed(e, "netip.Addr.Is6") && strings.Contains(e.Key, "RemoteAddress")
+		}
 		local6 := func(e *Expr) bool { return isCallNamed(e, "netip.Addr.Is6") && strings.Contains(e.Key, "localAddress") }
 		las := func(e *Expr) bool { return isFieldRead(e, "LocalAS") }
 		ras := func(e *Expr) bool { return isFieldRead(e, "RemoteAS") }
@@ -334,49 +342,49 @@ func (c *Check) serveShutdown(rule string) {
 	if fn == nil {
 		return
 	}
-		// deferred shutdown: stop all, serving=false, close(doneServingCh) in one critical section
-		var d *ssa.Function
-		allInstrs(fn, func(in ssa.Instruction) {
-			if df, ok := in.(*ssa.Defer); ok {
-				if t := p.staticLocalCallee(df); t != nil && len(p.callsIn(t, descIs("peer.stop"))) > 0 {
-					d = t
-				}
-			}
-		})
-		okD := d != nil
-		if okD {
-			h := p.lockHeld(d, "mu")
-			var store, closeDone ssa.Instruction
-			allInstrs(d, func(in ssa.Instruction) {
-				if st, ok := in.(*ssa.Store); ok {
-					if fa, ok := st.Addr.(*ssa.FieldAddr); ok && structFieldName(fa) == "serving" {
-						store = in
-					}
-				}
-				if cl, ok := in.(*ssa.Call); ok && p.calleeDesc(cl) == "builtin:close" {
-					closeDone = in
-				}
-			})
-			locks := p.callsIn(d, descIs("sync.Mutex.Lock"))
-			unlocks := p.callsIn(d, descIs("sync.Mutex.Unlock"))
-			okD = store != nil && closeDone != nil && h[store] && h[closeDone] && len(locks) == 1 && len(unlocks) == 1
-			for _, cl := range p.callsIn(d, descIs("peer.stop")) {
-				if !h[cl.(ssa.Instruction)] {
-					okD = false
-				}
-				if _, isGo := cl.(*ssa.Go); isGo {
-					okD = false
-				}
-			}
-			if okD {
-				// no Unlock between the Lock and the store of serving=false
-				hit := pathSearch(d, locks[0].(ssa.Instruction), func(x ssa.Instruction) bool { return x == store }, func(x ssa.Instruction) bool {
-					ci, ok := x.(ssa.CallInstruction)
-					return ok && p.calleeDesc(ci) == "sync.Mutex.Unlock"
-				})
-				okD = hit != nil
+	// deferred shutdown: stop all, serving=false, close(doneServingCh) in one critical section
+	var d *ssa.Function
+	allInstrs(fn, func(in ssa.Instruction) {
+		if df, ok := in.(*ssa.Defer); ok {
+			if t := p.staticLocalCallee(df); t != nil && len(p.callsIn(t, descIs("peer.stop"))) > 0 {
+				d = t
 			}
 		}
-		c.require(okD, rule, "Server.Serve", "deferred shutdown atomic", p.Pos(fn.Pos()),
-			"the deferred shutdown stops every peer (synchronously), clears serving and closes doneServingCh inside one critical section, so no AddPeer can start a peer that is never stopped")
+	})
+	okD := d != nil
+	if okD {
+		h := p.lockHeld(d, "mu")
+		var store, closeDone ssa.Instruction
+		allInstrs(d, func(in ssa.Instruction) {
+			if st, ok := in.(*ssa.Store); ok {
+				if fa, ok := st.Addr.(*ssa.FieldAddr); ok && structFieldName(fa) == "serving" {
+					store = in
+				}
+			}
+			if cl, ok := in.(*ssa.Call); ok && p.calleeDesc(cl) == "builtin:close" {
+				closeDone = in
+			}
+		})
+		locks := p.callsIn(d, descIs("sync.Mutex.Lock"))
+		unlocks := p.callsIn(d, descIs("sync.Mutex.Unlock"))
+		okD = store != nil && closeDone != nil && h[store] && h[closeDone] && len(locks) == 1 && len(unlocks) == 1
+		for _, cl := range p.callsIn(d, descIs("peer.stop")) {
+			if !h[cl.(ssa.Instruction)] {
+				okD = false
+			}
+			if _, isGo := cl.(*ssa.Go); isGo {
+				okD = false
+			}
+		}
+		if okD {
+			// no Unlock between the Lock and the store of serving=false
+			hit := pathSearch(d, locks[0].(ssa.Instruction), func(x ssa.Instruction) bool { return x == store }, func(x ssa.Instruction) bool {
+				ci, ok := x.(ssa.CallInstruction)
+				return ok && p.calleeDesc(ci) == "sync.Mutex.Unlock"
+			})
+			okD = hit != nil
+		}
+	}
+	c.require(okD, rule, "Server.Serve", "deferred shutdown atomic", p.Pos(fn.Pos()),
+		"the deferred shutdown stops every peer (synchronously), clears serving and closes doneServingCh inside one critical section, so no AddPeer can start a peer that is never stopped")
 }
